@@ -700,11 +700,16 @@ def main(argv):
     rep.extra["model_cases"] = len(cases)
     rep.extra["model_flagged_cases"] = sum(1 for c in cases if c["flagged"])
     rep.extra["model_flagged_value_cases"] = sum(1 for c in cases if c["value"])
+    table = {}
+    for c in cases:  # non-vacuity of the invariants: which (operation, flavour, Alg verdict, Alg outcome) combinations the instance contains
+        k = f"{c['op']}/{c['root']}/{c['fl']}/{'flagged' if c['flagged'] else 'cleared'}/{'returns' if c['ok'] else 'raises'}"
+        table[k] = table.get(k, 0) + 1
+    rep.extra["model_case_table"] = table
 
     # ---- REPLAY + TRACE executions
     batch = 60
     tasks = [{"cases": cases[i : i + batch]} for i in range(0, len(cases), batch)]
-    n_hist = 120 if tier == "quick" else 1500
+    n_hist = 120 if tier == "quick" else 700
     htasks = [{"seed": f"{common.seed()}/{PID}/{i}", "maxlen": 12 if tier == "quick" else 40, "dcf": rnd.random() < 0.3} for i in range(n_hist)]
     try:
         replayed = [ev for evs in pool_map(replay_cases, tasks, procs) for ev in evs]
